@@ -5,6 +5,7 @@ import SqlObjVerif.Lemmas.DdlFlags
 import SqlObjVerif.Lemmas.DdlXSql
 import SqlObjVerif.Lemmas.DdlXStyle
 import SqlObjVerif.Lemmas.DdlXJoin
+import SqlObjVerif.Lemmas.DdlXWMain
 /-!
 # C14 — the generated schema matches the class declaration, in every dialect
 
@@ -212,13 +213,16 @@ records, styles and every sufficiently large call depth — and restate the text
 translated `DBAPI.createColumns`. -/
 
 section Translated
+variable {x : SqlObjVerif.DdlX.ClsX}
 open SqlObjVerif.DdlX
 open SqlObjVerif.PyDdl (callN R Val Callee)
 open SqlObjVerif.PyDdl.Extracted (prog M__extraSQL M_createColumn M_createIDColumn M_joinSQLType
   M__SO_createJoinTableSQL M_createColumns M_createReferenceConstraint M_createReferenceConstraints M_createTableSQL
   F_mixedToUnder F_underToMixed F_capword F_lowerword M_pythonAttrToDBColumn M_dbColumnToPythonAttr
   M_pythonClassToDBTable M_tableReference M_idForTable M_instanceAttrToIDAttr M_pythonClassToAttr
-  C_SQLObject M__getJoinsToCreate M_createJoinTablesSQL)
+  C_SQLObject M__getJoinsToCreate M_createJoinTablesSQL M_createIndexSQL M_createJoinTables M_dropJoinTables
+  M_dropTable M_createTable M__SO_createJoinTable M__SO_createIndex)
+open SqlObjVerif.PyDdl (callNW)
 
 /-- `SOCol._extraSQL` = `extraPieces` (NOT NULL / UNIQUE / DEFAULT in source order) on every column class -/
 theorem C14_translated_extraSQL_eq_model (n : Nat) (st : Style) (tb : Str) (c0 : Val) (col : Col) :
@@ -244,7 +248,7 @@ theorem C14_translated_createColumn_eq_model (n : Nat) (st : Style) (tb : Str) (
 
 /-- `createIDColumn` (`_createIDColumn` on SQLite) of the seven connection classes = `idText` -/
 theorem C14_translated_createIDColumn_eq_model (n : Nat) (d : Dialect) (c : Caps) (decl : Decl) (c0 : Val) :
-    callN prog ddlI (n + 2) (.meth (connCls d) M_createIDColumn) [connV d c, soClassV decl c0] =
+    callN prog ddlI (n + 2) (.meth (connCls d) M_createIDColumn) [connV d c, soClassV decl c0 x] =
       resS (idText Extracted.tables d decl) :=
   createIDColumn_eq n d c decl c0
 
@@ -261,7 +265,7 @@ theorem C14_translated_createJoinTableSQL_eq_model (n : Nat) (d : Dialect) (c : 
 /-- `DBAPI.createColumns` (the id column, the comprehension over `columnList`, the indentation and `",\n".join`)
     = the body of the hand model's CREATE TABLE text; a column that refuses makes the whole call raise -/
 theorem C14_translated_createColumns_eq_model (n : Nat) (d : Dialect) (c : Caps) (decl : Decl) (c0 : Val) :
-    agrees (callN prog ddlI (n + 8) (.meth (connCls d) M_createColumns) [connV d c, soClassV decl c0])
+    agrees (callN prog ddlI (n + 8) (.meth (connCls d) M_createColumns) [connV d c, soClassV decl c0 x])
       (colsModel d c decl) :=
   createColumns_agrees n d c decl c0
 
@@ -277,11 +281,11 @@ theorem C14_createTableSQL_is_frame_around_columns (d : Dialect) (c : Caps) (dec
     by the declared columns, in order, with the declared db names and NOT NULL / UNIQUE flags. -/
 theorem C14_translated_skeleton_eq_declaration (n : Nat) (d : Dialect) (c : Caps) (bs : Bool) (decl : Decl) (c0 : Val)
     (hbs : bsOK bs (litDb Extracted.tables d)) (hwf : declWF bs decl = true) (body : Str)
-    (h : callN prog ddlI (n + 8) (.meth (connCls d) M_createColumns) [connV d c, soClassV decl c0] = .ok (.str body)) :
+    (h : callN prog ddlI (n + 8) (.meth (connCls d) M_createColumns) [connV d c, soClassV decl c0 x] = .ok (.str body)) :
     skeleton bs (Extracted.tables.createTable.1 ++ decl.tableName ++ Extracted.tables.createTable.2.1 ++ body ++
         Extracted.tables.createTable.2.2) =
       idSkel d decl :: decl.cols.map (skelOf decl.style) := by
-  have ha := createColumns_agrees n d c decl c0
+  have ha := createColumns_agrees (x := x) n d c decl c0
   cases hm : colsModel d c decl with
   | none =>
     rw [hm] at ha
@@ -299,7 +303,7 @@ theorem C14_translated_skeleton_eq_declaration (n : Nat) (d : Dialect) (c : Caps
 example : callN prog ddlI 8 (.meth (connCls .mysql) M_createColumns)
     [connV .mysql ⟨true, false⟩, soClassV ⟨[80], .under, false, none, none, false, .none,
       [⟨[97], none, .simple .dateTime, true, none, false, none⟩,
-       ⟨[98], none, .enum [some [120], none], false, none, false, none⟩], [], []⟩ .none] =
+       ⟨[98], none, .enum [some [120], none], false, none, false, none⟩], [], []⟩ .none ⟨[], .none⟩] =
     .ok (.str (lit "    id INT PRIMARY KEY AUTO_INCREMENT,\n    a DATETIME(6) NOT NULL,\n    b ENUM('x')")) := by
   rfl
 
@@ -320,13 +324,13 @@ theorem C14_translated_referenceConstraint_eq_model (n : Nat) (d : Dialect) (c :
 
 /-- `DBAPI.createReferenceConstraints` (the isinstance-filtered comprehension and the truthiness filter) = `constraints` -/
 theorem C14_translated_createReferenceConstraints_eq_model (n : Nat) (d : Dialect) (c : Caps) (decl : Decl) (c0 : Val) :
-    callN prog ddlI (n + 3) (.meth (connCls d) M_createReferenceConstraints) [connV d c, soClassV decl c0] =
+    callN prog ddlI (n + 3) (.meth (connCls d) M_createReferenceConstraints) [connV d c, soClassV decl c0 x] =
       .ok (strList (constraints Extracted.tables d decl)) :=
   createReferenceConstraints_eq n d c decl c0
 
 /-- **`DBAPI.createTableSQL` translated = (`createTableSQL`, `constraints`) of the hand model**, or both refuse -/
 theorem C14_translated_createTableSQL_eq_model (n : Nat) (d : Dialect) (c : Caps) (decl : Decl) (c0 : Val) :
-    agreesT (callN prog ddlI (n + 9) (.meth (connCls d) M_createTableSQL) [connV d c, soClassV decl c0])
+    agreesT (callN prog ddlI (n + 9) (.meth (connCls d) M_createTableSQL) [connV d c, soClassV decl c0 x])
       (createTableSQL Extracted.tables d c decl) (constraints Extracted.tables d decl) :=
   createTableSQL_agrees n d c decl c0
 
@@ -334,10 +338,10 @@ theorem C14_translated_createTableSQL_eq_model (n : Nat) (d : Dialect) (c : Caps
     well-formed declaration, its skeleton is the key column followed by the declared columns. -/
 theorem C14_translated_createTableSQL_skeleton (n : Nat) (d : Dialect) (c : Caps) (bs : Bool) (decl : Decl) (c0 : Val)
     (hbs : bsOK bs (litDb Extracted.tables d)) (hwf : declWF bs decl = true) (text : Str) (cons : Val)
-    (h : callN prog ddlI (n + 9) (.meth (connCls d) M_createTableSQL) [connV d c, soClassV decl c0] =
+    (h : callN prog ddlI (n + 9) (.meth (connCls d) M_createTableSQL) [connV d c, soClassV decl c0 x] =
       .ok (.tuple [.str text, cons])) :
     skeleton bs text = idSkel d decl :: decl.cols.map (skelOf decl.style) := by
-  have ha := createTableSQL_agrees n d c decl c0
+  have ha := createTableSQL_agrees (x := x) n d c decl c0
   cases hm : createTableSQL Extracted.tables d c decl with
   | none =>
     rw [hm] at ha
@@ -442,6 +446,76 @@ example : (joinsToCreateX [some ⟨true, none, [65], [65], ⟨[108], [120], [121
 
 example : callN prog ddlI 4 (.func F_mixedToUnder) [.str [102, 111, 111, 66, 97, 114, 73, 68]] =
     .ok (.str [102, 111, 111, 95, 98, 97, 114, 95, 105, 100]) := by rfl
+
+/-! #### the stateful part: the translated code run against the catalogue (`Model/PyDdlW.lean`, `Model/DdlXW.lean`)
+
+`callNW prog ddlI EX n w …` threads the model's catalogue `w : Cat` through the translated functions; `conn.query(sql)`
+hands the statement text to the reader `execSQL`, `tableExists` reads the catalogue (interface: header of
+`Model/DdlXW.lean`).  `agreesW r m`: the run ends in the catalogue the model computes, or both fail. -/
+
+/-- `<Connection>.createIndexSQL` → `SODatabaseIndex.<dialect>CreateIndexSQL` (aliases resolved by the class table)
+    = `indexSQL`, for every dialect, declaration and index over plain columns -/
+theorem C14_translated_indexSQL_eq_model (n : Nat) (d : Dialect) (c : Caps) (decl : Decl) (c0 : Val) (ix : Index) :
+    callN prog ddlI (n + 2) (.meth (connCls d) M_createIndexSQL) [connV d c, soClassV decl c0 x, ixV decl ix] =
+      .ok (.str (indexSQL d decl ix)) := createIndexSQL_eq n d c decl c0 x ix
+
+/-- the statements of the connection classes against the catalogue: `_SO_createJoinTable` (CREATE TABLE of the link
+    table), `_SO_createIndex` (not MySQL), `createTable` of the classes that use `DBAPI.createTable` -/
+theorem C14_translated_conn_statements_eq_model (n : Nat) (d : Dialect) (c : Caps) (decl : Decl) (c0 : Val) (w : Cat)
+    (j : JoinD) (ix : Index) (hj : 32 ∉ j.join.table) (ht : 32 ∉ decl.tableName) (hi : 32 ∉ ix.name) :
+    callNW prog ddlI EX (n + 3) w (.meth (connCls d) M__SO_createJoinTable) [connV d c, jV j] =
+      createRes j.join.table .none w ∧
+    (d ≠ .mysql → callNW prog ddlI EX (n + 3) w (.meth (connCls d) M__SO_createIndex)
+        [connV d c, soClassV decl c0 x, ixV decl ix] = indexRes decl.tableName ix.name w) ∧
+    (plainConn d → ∀ text, createTableSQL Extracted.tables d c decl = some text →
+      callNW prog ddlI EX (n + 10) w (.meth (connCls d) M_createTable) [connV d c, soClassV decl c0 x] =
+        createRes decl.tableName (strList (constraints Extracted.tables d decl)) w) :=
+  ⟨connCreateJoinTable n d c j w hj, fun hd => connCreateIndex n d hd c decl c0 x ix w ht hi,
+   fun hd text h => connCreateTable n d hd c decl c0 w text h ht⟩
+
+/-- `SQLObject.createJoinTables(ifNotExists, connection)` = `createLinks` over `linksOf true` of the owned link tables -/
+theorem C14_translated_createJoinTables_eq_model (n : Nat) (d : Dialect) (c : Caps) (decl : Decl) (c0 : Val) (ine : Bool)
+    (w : Cat) (hb : ∀ j ∈ joinsToCreateX x.joins, 32 ∉ j.join.table) :
+    agreesW (callNW prog ddlI EX (n + 4) w (.meth C_SQLObject M_createJoinTables)
+        [soClassV decl c0 x, .bool ine, connV d c])
+      (createLinks ine (linksOf true (linkNames x.joins)) w) := createJoinTables_eq n d c decl c0 ine w hb
+
+/-- `SQLObject.dropJoinTables(ifExists, connection)` = `dropLinks` (a self-referential link table once) -/
+theorem C14_translated_dropJoinTables_eq_model (n : Nat) (d : Dialect) (c : Caps) (decl : Decl) (c0 : Val) (ie : Bool)
+    (w : Cat) (hb : ∀ j ∈ joinsToCreateX x.joins, 32 ∉ j.join.table) :
+    agreesW (callNW prog ddlI EX (n + 2) w (.meth C_SQLObject M_dropJoinTables)
+        [soClassV decl c0 x, .bool ie, connV d c])
+      (dropLinks ie (linksOf true (linkNames x.joins)) w) := dropJoinTables_eq n d c decl c0 ie w hb
+
+/-- **`SQLObject.dropTable(ifExists, dropJoinTables, cascade, connection)` translated = `dropTableG`** with the flags
+    extracted from the source, on the connection classes that use `DBAPI.dropTable` / PostgreSQL's (table and link
+    table names without blanks) -/
+theorem C14_translated_dropTable_eq_model (n : Nat) (d : Dialect) (hd : plainConn d) (c : Caps) (decl : Decl) (c0 : Val)
+    (ie dj cas : Bool) (w : Cat) (idx : List Name)
+    (hb : 32 ∉ decl.tableName) (hbl : ∀ j ∈ joinsToCreateX x.joins, 32 ∉ j.join.table) :
+    agreesW (callNW prog ddlI EX (n + 3) w (.meth C_SQLObject M_dropTable)
+        [soClassV decl c0 x, .bool ie, .bool dj, .bool cas, connV d c])
+      (dropTableG Extracted.dropPassesIfExists Extracted.dropDedupes ie dj ⟨decl.tableName, linkNames x.joins, idx⟩ w) :=
+  dropTable_eq n d hd c decl c0 ie dj cas w idx hb hbl
+
+/-- **Drop-if-present never fails and is idempotent, about the translated source**: the translated
+    `dropTable(ifExists=True, …)` ends normally whatever the catalogue holds, the table is gone, and running it again
+    from the resulting catalogue changes nothing -/
+theorem C14_translated_drop_idempotent (n : Nat) (d : Dialect) (hd : plainConn d) (c : Caps) (decl : Decl) (c0 : Val)
+    (dj cas : Bool) (w : Cat) (hb : 32 ∉ decl.tableName) (hbl : ∀ j ∈ joinsToCreateX x.joins, 32 ∉ j.join.table) :
+    ∃ v w1, callNW prog ddlI EX (n + 3) w (.meth C_SQLObject M_dropTable)
+        [soClassV decl c0 x, .bool true, .bool dj, .bool cas, connV d c] = (.ok v, w1) ∧ decl.tableName ∉ w1.tables ∧
+      ∃ v', callNW prog ddlI EX (n + 3) w1 (.meth C_SQLObject M_dropTable)
+        [soClassV decl c0 x, .bool true, .bool dj, .bool cas, connV d c] = (.ok v', w1) := by
+  obtain ⟨w1, h1, hnot⟩ := C14_drop_if_present_never_fails dj ⟨decl.tableName, linkNames x.joins, []⟩ w
+  have ha := dropTable_eq (x := x) n d hd c decl c0 true dj cas w [] hb hbl
+  rw [h1] at ha
+  obtain ⟨v, hv⟩ := agreesW_ok ha
+  have h2 := C14_drop_if_present_idempotent_flags dj ⟨decl.tableName, linkNames x.joins, []⟩ w w1 h1
+  have hb2 := dropTable_eq (x := x) n d hd c decl c0 true dj cas w1 [] hb hbl
+  rw [h2] at hb2
+  obtain ⟨v', hv'⟩ := agreesW_ok hb2
+  exact ⟨v, w1, hv, hnot, v', hv'⟩
 
 end Translated
 
